@@ -259,6 +259,13 @@ def oracle(case, ob):
             for ai in range(nb):
                 if ai not in linked and not _same(b["arrs"][ai], a["arrs"][ai]):
                     return f"{tag}: array #{ai} changed although it does not share memory with the target #{tgt}"
+            # an assignment copies what it is given: it never makes two existing arrays share memory
+            if c["op"] in ("set", "set_values"):
+                old_pairs = {tuple(sorted(p)) for p in b["share"]}
+                for i, j in a["share"]:
+                    if i < nb and j < nb and tuple(sorted((i, j))) not in old_pairs:
+                        return (f"{tag}: after the assignment arrays #{i} and #{j} share memory (the assigned values were not copied), "
+                                f"so a later write into one changes entries of the other that nobody addressed")
         if o["ok"] and len(a["arrs"]) > nb and c["op"] in INDEPENDENT:
             new = len(a["arrs"]) - 1
             for i, j in a["share"]:
